@@ -462,8 +462,10 @@ def findD (fuel : Nat) (root : Val) (sp : Pos) (ps entry : Bool) (toks : List St
                 else
                   let (root', pr) := writeRef root cur.parent (.dict (match cpv with | .dict c _ => c | _ => .plain) (kvSet ni (.list .n0 [old]) kvs))
                   .ok (root', { parent := childRef root' pr (.key ni), nameIdx := Option.none, value := Val.none, found := cur.found, notFound := some (bracket sNew :: rest) })
-            | .list .n0 xs =>
-              -- n0list["[i]"] is an xpath lookup on that list (n0list_.__getitem__)
+            | .list _ xs =>
+              -- the element `[i]` of the list found (fix C03-c: `cur_value`, whatever the class of the enclosing
+              -- list); a non-list element is fetched with `parent["[i]"]`, which is `TypeError` on a plain list
+              -- and an xpath lookup followed by `list.__setitem__(str, …)` (`TypeError`) on an n0list
               (match (if startsWith ni ['['] && endsWith ni [']'] then pyInt ((ni.drop 1).dropLast) else Option.none) with
                | Option.none => .error .Unsupported
                | some i =>
